@@ -1,0 +1,55 @@
+// Copyright 2020-2025 Buf Technologies, Inc.
+//
+// Licensed under the Apache License, Version 2.0 (the "License");
+// you may not use this file except in compliance with the License.
+// You may obtain a copy of the License at
+//
+//      http://www.apache.org/licenses/LICENSE-2.0
+//
+// Unless required by applicable law or agreed to in writing, software
+// distributed under the License is distributed on an "AS IS" BASIS,
+// WITHOUT WARRANTIES OR CONDITIONS OF ANY KIND, either express or implied.
+// See the License for the specific language governing permissions and
+// limitations under the License.
+
+//go:build verif
+
+package bufprotoplugin
+
+// Contracts for the gocv verifier (see /verif/DESIGN.md). Comment-only.
+// Ghost variables and the trusted contracts of github.com/bufbuild/protoplugin: /verif/specs/R4e.spec (prefix re_).
+//
+// generator.Generate ("A new ResponseBuilder is constructed for every invocation of Generate and is used to
+// consolidate all of the CodeGeneratorResponse_Files returned from a single plugin into a single
+// CodeGeneratorResponse"): one job per request; job i invokes the generator's handler exactly once, with request i
+// (wrapped unchanged) and the ONE response writer of this call; a failing handler fails its job, hence - through
+// thread.Parallelize - the whole Generate; the response is built from that one writer, and a response that carries a
+// plugin error is turned into an error.
+// closure 0: the lenient-validation printer; closure 1: the job.
+//@ func (g *generator) Generate(ctx, container, codeGeneratorRequests) (r, err)
+//@   property C17
+//@   modifies heap, ghost.fail, ghost.wfail, ghost.sinkPaths, ghost.sinkBuckets, ghost.lastPutOptions, ghost.re_rw, ghost.re_fail0, ghost.re_respFrom, ghost.re_handleN, ghost.re_handleBy, ghost.re_handleReq, ghost.re_handleCGR, ghost.re_handleRW, ghost.re_handleErr, ghost.buf, ghost.re_runN, ghost.re_runName, ghost.re_runOpts, ghost.re_runErr, ghost.re_rwFilesN, ghost.re_rwFilesTo, ghost.re_rwFiles, ghost.re_rwErrN, ghost.re_rwErrTo, ghost.re_rwErrMsg, ghost.re_binResp, ghost.re_binDecoded, ghost.re_verBuf, ghost.re_verText
+//@   ghost after "protopluginResponseWriter := protoplugin.NewResponseWriter(" re_rw := protopluginResponseWriter
+//@   ensures no-response-on-error: err != nil ==> r == nil
+//@   ensures plugin-error-is-error: err == nil ==> r != nil && r.GetError() == ""
+//@   ensures built-from-the-shared-writer: err == nil ==> ghost.re_respFrom == ghost.re_rw && ghost.re_rw != nil
+// (not "ghost.fail && !old(ghost.fail)": the lenient-validation printer writes to stderr and its write errors are
+// deliberately dropped - `_, _ = fmt.Fprintln(...)`; those are raised before the jobs start in the engine's model)
+//@   ghost before "if err := thread.Parallelize(" re_fail0 := ghost.fail
+//@   ensures failing-request-fails-all: ghost.fail && !ghost.re_fail0 ==> err != nil
+//@   loop 0 invariant len(jobs) == len(codeGeneratorRequests)
+//@   assert before "if err := thread.Parallelize(" one-job-per-request: len(jobs) == len(codeGeneratorRequests)
+//@   closure 1 ensures at-most-one-invocation: ghost.re_handleN == old(ghost.re_handleN) || ghost.re_handleN == old(ghost.re_handleN) + 1
+//@   closure 1 ensures invoked-unless-invalid: err == nil ==> ghost.re_handleN == old(ghost.re_handleN) + 1
+//@   closure 1 ensures this-handler: ghost.re_handleN == old(ghost.re_handleN) + 1 ==> ghost.re_handleBy[old(ghost.re_handleN)] == old(g.handler)
+//@   closure 1 ensures this-request: ghost.re_handleN == old(ghost.re_handleN) + 1 ==> ghost.re_handleReq[old(ghost.re_handleN)] != nil && ghost.re_handleCGR[old(ghost.re_handleN)] == codeGeneratorRequest
+//@   closure 1 ensures this-writer: ghost.re_handleN == old(ghost.re_handleN) + 1 ==> ghost.re_handleRW[old(ghost.re_handleN)] == protopluginResponseWriter
+//@   closure 1 ensures handler-failure-fails-job: ghost.re_handleN == old(ghost.re_handleN) + 1 ==> err == ghost.re_handleErr[old(ghost.re_handleN)]
+//@   closure 1 ensures job-reports: ghost.fail && !old(ghost.fail) ==> err != nil
+//@   canary ensures err != nil
+//@   canary ensures err == nil
+//
+//@ inline func newGenerator
+//@ func NewGenerator(logger, handler) (r)
+//@   property C17
+//@   ensures runs-this-handler: r != nil && typeOf(r) == typeId(*generator) && cast(*generator, r).handler == handler
